@@ -66,6 +66,16 @@ CLAIMS = {
         text="copy.Copy with include/exclude patterns is run on generated trees into empty and populated destinations (unrelated old files, existing copies of source directories, old non-directories at source paths). The set of written paths must equal the reference filter's kept set plus ancestors and the set a filtered walk reports; nothing else may be created, changed or removed; written entries (including ancestors created on demand) must carry the source's type, bytes, mode, owner and xattrs. Sampled, no proof.",
         note="Same dependency-divergence known finding as C10 (copy and walk agree with each other there).",
         ref="4 C16"),
+    "C13": dict(
+        technique="rapid-generated trees x copy shapes x option sets through copy.Copy; differential against an independent snapshot of the source subtree with the options applied",
+        text="copy.Copy is run on generated on-disk trees (hard-link groups, symlinks of all shapes, fifos, char and block devices, special mode bits, ns mtimes, xattrs) for the whole tree, a sub-directory, a single file, a single symlink (follow on/off) and a single special file, into a new name, a nested not-yet-existing path, the root or an existing directory, under every subset of {chown, octal mode, symbolic mode, utime, xattr handler} with a change notifier. The copy is observed with the harness's own lstat walker and compared two-directionally with the source subtree after applying the options (symbolic modes via the dchapes-mode dependency on the full source mode), including the hard-link partition, owner/timestamp of created parents and the exact multiset of notifier calls. Sampled, no proof.",
+        note="Meaning of symbolic mode strings is the dchapes-mode dependency's. tmpfs, privileged.",
+        ref="4 C13"),
+    "C15": dict(
+        technique="rapid-generated (source tree, destination tree, arguments, options) against an executable overlay model written from the statement; repeat-application (idempotence) as a metamorphic relation",
+        text="Source and destination trees over a 4-name universe (so every type pair collides) are combined with source arguments ('/', any entry, wildcards), destination arguments (existing directory/non-directory, new, nested new, trailing separator) and the options dir-contents / always-replace / wildcards. The harness's overlay model (destination selection, merge, replace, conflict => error with obstacle intact, always-replace) must agree with the real copy on success vs error and, on success, on the complete resulting tree; the same copy is then repeated and must agree with the model again and change nothing when its landing place is unchanged. Sampled, no proof.",
+        note="Destination arguments through symlinks are C14's domain; metadata of merged directories and of created parents is unspecified; wildcard sources go to directory-like destinations and are not combined with hard-linked sources.",
+        ref="4 C15"),
 }
 
 NOT_YET = "check not built yet in this round (planned, see DESIGN.md section 9)"
